@@ -9,6 +9,7 @@ CONSTANTS
  DelayBeforeStart = TRUE
  CancelInPlace = TRUE
  ForgetDiscarded = TRUE
+ DropLateBoxes = FALSE
  Record = FALSE
 INVARIANT NoHang
 CHECK_DEADLOCK FALSE
